@@ -1,3 +1,4 @@
+#include <sys/socket.h>
 #include <unistd.h>
 /* Driver for the unmodified pam/pam_whawty.c: provides the few libpam functions the module calls and
  * runs pam_sm_authenticate once.  usage: pamdrv <userfile> <pwfile> <mode> <errno-on-entry> [module options...]
@@ -45,9 +46,20 @@ ssize_t __wrap_write(int fd, const void *buf, size_t n)
   return __real_write(fd, buf, n);
 }
 
+ssize_t __real_send(int fd, const void *buf, size_t n, int flags);
+ssize_t __wrap_send(int fd, const void *buf, size_t n, int flags)
+{
+  const char *c = getenv("PAMDRV_WRITECAP");
+  if (c && fd > 2) {
+    size_t cap = (size_t)atoi(c);
+    if (cap > 0 && n > cap) n = cap;
+  }
+  return __real_send(fd, buf, n, flags);
+}
+
 int main(int argc, char **argv) {
   if (argc < 5) return 2;
-  signal(SIGPIPE, SIG_IGN);
+  /* SIGPIPE keeps its default disposition: a PAM module must not rely on the host application ignoring it */
   g_user = slurp(argv[1]); g_pw = slurp(argv[2]);
   g_mode_conv = !strcmp(argv[3], "conv");
   int e = atoi(argv[4]);
